@@ -498,20 +498,168 @@ def c05_verify_shortens_only(ctx):
     return q.result()
 
 
+def c11_addr_lookup_lowercase(ctx):
+    q = Q("c11_addr_lookup_lowercase", ["DnsCache::refresh_due_hosts", "DnsCache::get_addr", "DnsCache::get_addresses_for_host", "DnsCache::add_or_update (key discipline of the address table)"],
+          "every explored path of each function to its first look-up in the address table (loops: first pass, opaque iterators)",
+          ["calls are opaque; value provenance only: which call produced the String used as key"])
+    T = "HashMap::<String, Vec<DnsRecordIntf>>::"
+    # field index of `addr` in DnsCache (declaration order, read off the aggregate in DnsCache::new)
+    nf = [n for n in ctx.funcs if n.endswith("::new") and ctx.funcs[n].ret in ("DnsCache", "dns_cache::DnsCache", "Self")]
+    txt = " ".join(x for n in nf for b in ctx.funcs[n].blocks.values() for x in b[0])
+    m = re.search(r"DnsCache \{ (.*?) \}", txt)
+    names = [x.split(":")[0].strip() for x in m.group(1).split(", ")] if m else []
+    if "addr" not in names:
+        q.unknown.append("layout: DnsCache aggregate with field addr not found in DnsCache::new")
+        return q.result()
+    k = names.index("addr")
+
+    def first_lookup(fname, methods):
+        f = ctx.funcs[ctx.fn(fname)]
+        ex = Explorer(ctx.funcs, ctx.consts, max_paths=1500)
+        for p in ex.explore(f.name):
+            for c in p.events:
+                if not (c[0] == "call" and any(c[1] == T + m_ for m_ in methods) and len(c[2]) >= 2):
+                    continue
+                recv, key = c[2][0], c[2][1]
+                if not (isinstance(recv, Ref) and recv.path[-1:] == (k,)):
+                    continue   # a look-up in one of the other tables
+                v = _deref_val(p, key) if isinstance(key, Ref) else key
+                prod = (_producer(p, v) if v is not None else None) or _producer(p, key)
+                return prod[1] if prod else "no call (a value passed in or taken from an iterator)"
+        return None
+    disc = first_lookup("::add_or_update", ["entry"])
+    if disc is None or not disc.endswith("to_lowercase"):
+        q.unknown.append(f"add_or_update no longer files address records under the lower-cased owner name (key produced by {disc}): the key discipline this query assumes changed")
+        return q.result()
+    for fname, what in (("::refresh_due_hosts", "addresses of browsed instances are refreshed"), ("::get_addr", "addresses of a resolved service are read"),
+                        ("::get_addresses_for_host", "addresses of a resolved host name are read")):
+        try:
+            prod = first_lookup(fname, ["get", "get_mut"])
+        except LookupError as e:
+            q.unknown.append(str(e))
+            continue
+        if prod is None:
+            q.unknown.append(f"{fname[2:]}: look-up in the address table not reached")
+        elif not prod.endswith("to_lowercase"):
+            q.fail.append((f"{fname[2:]}: the address table is keyed by lower-cased host names, but the look-up by which {what} uses the name as written in the SRV record: "
+                           "hosts with an upper-case letter are never found", f"key produced by {prod}"))
+        else:
+            q.nontrivial += 1
+    return q.result()
+
+
+def c11_hostname_refresh_guard(ctx):
+    q = Q("c11_hostname_refresh_guard", ["DnsCache::refresh_due_hostname_resolutions::{closure} (which address records of a resolved host name are re-queried)",
+                                         "DnsRecord::is_expired", "DnsRecord::refresh_due", "DnsRecord::refresh_no_more", "get_expiration_time"],
+          "every record state (created < 2^62, ttl: u32, expires, refresh: u64) and every now < 2^62; every path of the closure",
+          ["clock < 2^62", "get_record_mut() is a pure accessor of the boxed record", "to_owned / downcast / address are opaque",
+           "record invariant: expires <= created + 1000*ttl (an expiry is only ever shortened)"])
+    if not check_layout(ctx, q):
+        return q.result()
+    cands = [n for n in ctx.funcs if n.endswith("::refresh_due_hostname_resolutions::{closure#0}")]
+    if len(cands) != 1:
+        q.unknown.append(f"refresh closure: {len(cands)} candidates")
+        return q.result()
+    f = ctx.funcs[cands[0]]
+    now = z3.BitVec("now", 64)
+    env = ("env", 0)
+    m = re.search(r"\(\(\*_1\)\.(\d+): (&?)u64\)", f.debug.get("now", ""))
+    if not m:
+        q.unknown.append("capture `now` of the refresh closure not found")
+        return q.result()
+    k, by_ref = int(m.group(1)), m.group(2) == "&"
+    objs = {env: {(k,): Ref(("nowcell", 3), (), mutable=False)}, ("nowcell", 3): {(): BV(now, 64)}} if by_ref else {env: {(k,): BV(now, 64)}}
+    ex = Explorer(ctx.funcs, ctx.consts, inline=REC_INLINE | {"refresh_no_more"}, max_paths=400)
+    paths = ex.explore(f.name, args=[Ref(env, ()), None], objs=objs)
+    n_some = n_none = 0
+    for i, p in enumerate(paths):
+        recs = [o for o in p.objs if isinstance(o, tuple) and o and o[0] == "record-of"]
+        pre = p.cond + [z3.ULT(now, TWO62)]
+        for o in recs:
+            if CREATED in p.objs[o]:
+                pre.append(z3.ULT(p.objs[o][CREATED].e, TWO62))
+        if p.outcome.startswith("panic") and "unwrap" not in p.outcome:
+            q.unsat(pre, "refresh guard panics: " + p.outcome[6:40])
+            continue
+        if p.outcome != "return" or not isinstance(p.ret, Adt):
+            continue
+        if p.ret.name.endswith("None"):
+            n_none += 1
+            continue
+        n_some += 1
+        if len(recs) != 1:
+            q.unknown.append(f"path {i}: the guard looks at {len(recs)} record objects")
+            continue
+        init = ex_initial_fields(p, recs[0])
+        if EXPIRES[0] not in init and REFRESH[0] in init:
+            q.fail.append(("an address record of a resolved host name is re-queried without looking at its expiry: a record past its TTL is refreshed (never after expiry)", f"path {i}"))
+            continue
+        if EXPIRES[0] not in init or REFRESH[0] not in init:
+            q.unknown.append(f"path {i}: expires/refresh of the record not read before the decision")
+            continue
+        exp0, ref0 = init[EXPIRES[0]], init[REFRESH[0]]
+        o_ = p.objs[recs[0]]
+        if CREATED in o_ and TTL in o_:
+            # representation invariant of a cached record: its expiry is only ever shortened (flush, verify), never extended
+            # beyond created + 1000*ttl (decided by c11_new_lifetime / c11_reset_restarts / c11_cache_flush_rule / c05_verify_shortens_only)
+            pre = pre + [z3.ULE(exp0, o_[CREATED].e + zx(o_[TTL].e) * 1000)]
+        q.valid(pre, z3.ULT(now, exp0), f"path {i}: an expired address record is never re-queried (never after expiry)")
+        q.valid(pre, z3.UGE(now, ref0), f"path {i}: an address record is re-queried only when its refresh mark is due")
+        after = p.objs[recs[0]].get(REFRESH)
+        if after is None:
+            q.fail.append(("a re-queried record keeps its refresh mark: it is due again at every wake-up (not once per mark)", f"path {i}"))
+        else:
+            q.valid(pre, z3.UGT(after.e, now), f"path {i}: after the re-query the record is not due again at once", after.taint)
+        q.witness(pre, f"path {i}: re-query reachable")
+    if n_some == 0 or n_none == 0:
+        q.unknown.append(f"expected re-query and skip paths (found {n_some}/{n_none})")
+    return q.result()
+
+
+def ex_initial_fields(p, rec):
+    """(expires, refresh) symbols the path read from the record BEFORE any write: the executor names a first read
+    `obj<object>.<field>`; later writes replace the dict entry but the path condition still mentions the first symbol"""
+    names = {}
+    for c in p.cond:
+        for v in _vars_of(c):
+            s_ = str(v)
+            mm = re.match(r"objrecord_of[\w.]*\.(\d+)!", s_)
+            if mm:
+                names[int(mm.group(1))] = v
+    return names
+
+
+def _vars_of(e):
+    out, todo, seen = [], [e], set()
+    while todo:
+        x = todo.pop()
+        if x.get_id() in seen:
+            continue
+        seen.add(x.get_id())
+        if z3.is_const(x) and x.decl().kind() == z3.Z3_OP_UNINTERPRETED:
+            out.append(x)
+        todo.extend(x.children())
+    return out
+
+
 def c11_cache_flush_rule(ctx):
     q = Q("c11_cache_flush_rule", ["DnsCache::add_or_update::{closure#0} (the cache-flush rule applied to each cached record)"],
           "every path of the closure; class, now, created, expires: full width; get_class/get_type/get_created/get_expire are pure accessors of the record they are called on",
           ["clock < 2^62", "accessors of a boxed record are pure", "RRType comparison and the DnsAddress downcast are opaque (both outcomes explored)"])
     cands = [n for n in ctx.funcs if n.endswith("::add_or_update::{closure#0}")]
     env, rec = ("env", 0), ("cached", 0)
-    cls, now = z3.BitVec("incoming_class", 16), z3.BitVec("now", 64)
+    cls, now, rty = z3.BitVec("incoming_class", 16), z3.BitVec("now", 64), z3.BitVec("incoming_type", 16)
     loop_form = False
     if len(cands) == 1 and "IterMut" not in " ".join(t for _, t in ctx.funcs[cands[0][:-len("::{closure#0}")]].blocks.values() if "::next(" in t):
         f = ctx.funcs[cands[0]]
-        objs = {env: {(0, "*"): BV(cls, 16), (2, "*"): BV(now, 64)}, rec: {}}
+        objs = {env: {(0, "*"): BV(cls, 16), (1, "*"): BV(rty, 16), (2, "*"): BV(now, 64)}, rec: {}}
         # captured references: (*_1).0: &u16 -> deref gives the class; model the reference cells directly
         objs[env][(0,)] = Ref(env, (0, "*"))
+        objs[env][(1,)] = Ref(env, (1, "*"), mutable=False)
         objs[env][(2,)] = Ref(env, (2, "*"))
+        body = " ".join(ctx.funcs[cands[0]].debug.values())
+        if "((*_1).1: &dns_parser::RRType)" not in body and "((*_1).1: &RRType)" not in body:
+            q.unknown.append("capture layout of the flush closure changed (field 1 is not the incoming record's type)")
         ex = Explorer(ctx.funcs, ctx.consts, pure_accessors={"get_class", "get_type", "get_created", "get_expire"}, max_paths=400)
         paths = ex.explore(f.name, args=[Ref(env, ()), Ref(rec, ())], objs=objs, assumptions=[z3.ULT(now, TWO62)])
     else:
@@ -532,8 +680,8 @@ def c11_cache_flush_rule(ctx):
                 if any(re.search(r"= move \(\(%s as Some\)\.0" % nxt, x) for x in stmts):
                     start = b
                     break
-        cl, nl = (f.debug.get("class"), f.debug.get("now")) if f is not None else (None, None)
-        if not (start and cl and nl and re.fullmatch(r"_\d+", cl) and re.fullmatch(r"_\d+", nl)):
+        cl, nl, tl = (f.debug.get("class"), f.debug.get("now"), f.debug.get("rtype")) if f is not None else (None, None, None)
+        if not (start and cl and nl and tl and re.fullmatch(r"_\d+", cl) and re.fullmatch(r"_\d+", nl) and re.fullmatch(r"_\d+", tl)):
             q.unknown.append(f"cache-flush rule not found: {len(cands)} closure candidates and no `for r in ..iter_mut()` loop over the cached records in add_or_update")
             return q.result()
         loop_form = True
@@ -542,13 +690,13 @@ def c11_cache_flush_rule(ctx):
         ex = Explorer(ctx.funcs, ctx.consts, pure_accessors={"get_class", "get_type", "get_created", "get_expire"}, max_paths=400,
                       stop_calls=("as Iterator>::next",))
         paths = ex.explore(f.name, start_block=start, objs={rec: {}},
-                           locals_={nxt: Adt("Some", [Ref(rec, ())]), cl: BV(cls, 16), nl: BV(now, 64)}, assumptions=[z3.ULT(now, TWO62)])
+                           locals_={nxt: Adt("Some", [Ref(rec, ())]), cl: BV(cls, 16), nl: BV(now, 64), tl: BV(rty, 16)}, assumptions=[z3.ULT(now, TWO62)])
         for p in paths:
             if p.outcome.startswith("stop:"):
                 p.events = [e for e in p.events if not (e[0] == "call" and e[1].endswith("as Iterator>::next"))]
     if ex.unknown_constructs:
         q.notes.append("unmodelled: " + "; ".join(sorted(set(ex.unknown_constructs))[:4]))
-    flushed = 0
+    flushed = addr_flush = 0
     for i, p in enumerate(paths):
         if p.outcome.startswith("panic"):
             created = [v for k, v in p.acc.items() if k[0] == "get_created"]
@@ -589,8 +737,26 @@ def c11_cache_flush_rule(ctx):
         q.valid(pre, z3.UGT(expire.e, now + 1000), f"path {i}: only records with more than one second left are flushed (a flush never extends a lifetime)")
         q.valid(pre, rclass.e == cls, f"path {i}: only records of the same class are flushed")
         q.witness(pre, f"path {i}: flush reachable")
+        # address records are per link: an A/AAAA record is only flushed by a record received on the same interface
+        from mirslice import ENUM_IDS
+        ids = [z3.BitVecVal(ENUM_IDS.setdefault(k, len(ENUM_IDS) + 1), 16) for k in ("RRType::A", "RRType::AAAA")]
+        for vid, vname in zip(ids, ("A", "AAAA")):
+            if not ex.feasible(pre + [rty == vid]):
+                continue
+            dc = [e for e in p.events if e[0] == "call" and e[1].endswith("downcast_ref")]
+            if not any(e[0] == "call" and e[1].endswith("downcast_ref") for e in p.events):
+                q.fail.append((f"an {vname} record is flushed without looking at the interface it was learned on (records of another link are flushed too)", f"path {i}"))
+                continue
+            # the two u32 interface indices read through the downcast references (objects the executor made up for them)
+            idx = [v for o, flds in p.objs.items() if isinstance(o, tuple) and o and o[0] in ("hv", "ret", "fld", "fresh")
+                   for k, v in flds.items() if isinstance(v, BV) and v.width == 32]
+            if len(dc) == 2 and len(idx) == 2:
+                addr_flush += 1
+                q.valid(pre + [rty == vid], idx[0].e == idx[1].e, f"path {i}: an {vname} record is flushed only by a record from the same interface")
     if flushed == 0:
         q.unknown.append("no path of the closure flushes")
+    elif addr_flush < 2:
+        q.unknown.append(f"expected flush paths for A and AAAA records that compare the two interface ids (found {addr_flush})")
     return q.result()
 
 
@@ -937,9 +1103,21 @@ def c12_response_record_timers(ctx):
     if blk is None or not tl or not re.fullmatch(r"_\d+", tl):
         q.unknown.append("anchor not found: call of DnsCache::add_or_update / local `timers` in handle_response")
         return q.result()
-    start, dest, _ = blk
+    start, dest, callblk = blk
+    # the window starts where the loop body starts (the Some arm of the record iterator), so that anything done
+    # for a record BEFORE the cache has accepted it is seen too
+    locals0 = None
+    for b, (stmts, term) in f.blocks.items():
+        mm = re.match(r"(_\d+) = <std::iter::Chain<.*> as Iterator>::next\(", term)
+        if mm:
+            for b2, (st2, t2) in f.blocks.items():
+                if any(re.search(r"= move \(\(%s as Some\)\.0" % mm.group(1), x) for x in st2):
+                    start, locals0 = b2, {mm.group(1): Adt("Some", [Opaque("incoming record")])}
+    if locals0 is None:
+        q.unknown.append("anchor not found: the loop over msg.all_records() in handle_response")
+        return q.result()
     ex = Explorer(ctx.funcs, ctx.consts, stop_calls=("as Iterator>::next",), max_paths=1500)
-    paths = ex.explore(f.name, start_block=start)
+    paths = ex.explore(f.name, start_block=start, locals_=locals0)
     if ex.cut_paths:
         q.unknown.append("path budget exhausted in the record loop of handle_response")
     n_some = n_none = 0
@@ -969,6 +1147,9 @@ def c12_response_record_timers(ctx):
             q.witness(p.cond, f"classify: path {i} stores a record")
         elif may_none and not may_some:
             n_none += 1
+            if pushes:
+                q.fail.append(("a record the cache did not store (not for us / unknown type) still leaves wake-ups in the timer queue: the queue grows with foreign traffic",
+                               f"path {i}: {len(pushes)} pushes to `timers`"))
         else:
             q.unknown.append(f"path {i}: not classified by the verdict of add_or_update")
     if n_some < 2 or n_none < 1:
@@ -1141,6 +1322,36 @@ def c12_probe_timers(ctx):
                 q.witness(p.cond, f"classify: path {i} still probing")
         if n_false < 2 or n_true < 1:
             q.unknown.append(f"is_probing_done: expected paths for 'already active' and 'probing' (found {n_true}/{n_false})")
+    # (c) the drain happens AFTER the announce attempt that queued the probes: from every call of announce_service_on_intf in a
+    #     function that drains new_timers, every path that marks the service Probing drains before the loop pass / function ends
+    for name, fn in sorted(ctx.funcs.items()):
+        if not any(re.search(r"Vec::<u64>::drain", t) for _, t in fn.blocks.values()) or "{closure" in name:
+            continue
+        tag = name.split("::")[-1]
+        calls = [(b, re.search(r"return: (bb\d+)", t).group(1)) for b, (_, t) in fn.blocks.items()
+                 if re.search(r"= (?:service_daemon::)?announce_service_on_intf\(", t) and re.search(r"return: (bb\d+)", t)]
+        if not calls:
+            q.unknown.append(f"{tag}: drains new_timers but no call of announce_service_on_intf found")
+            continue
+        for cb, rb in calls:
+            ex3 = Explorer(ctx.funcs, ctx.consts, max_paths=600)
+            n_prob = 0
+            for i, p in enumerate(ex3.explore(name, start_block=rb)):
+                if not (p.outcome == "return" or p.outcome.startswith("cut:loop")):
+                    continue
+                ev = [e for e in p.events if e[0] == "call"]
+                prob = [j for j, e in enumerate(ev) if e[1].endswith("::set_status") and len(e[2]) >= 3 and isinstance(e[2][2], Adt) and e[2][2].name.endswith("Probing")]
+                again = [j for j, e in enumerate(ev) if e[1].endswith("announce_service_on_intf")]
+                if not prob or (again and again[0] < prob[0]):
+                    continue   # announced, or the marking belongs to a later announce attempt
+                n_prob += 1
+                if not any(e[1].endswith("Vec::<u64>::drain") for e in ev):
+                    q.fail.append(("a service is left Probing on an interface but the probe times queued by that attempt are not moved to the timer heap (drained before the attempt, or not at all)",
+                                   f"{tag}: from {cb}, path {i}"))
+            if n_prob == 0:
+                q.unknown.append(f"{tag}: no path from the announce attempt at {cb} marks the service Probing")
+            else:
+                q.nontrivial += 1
     # (b) every drain of new_timers feeds the daemon's timer heap
     sites = []
     for name, f in ctx.funcs.items():
@@ -1348,6 +1559,58 @@ def c19_browse_listener_gone(ctx):
         q.unknown.append("no path on which SearchStarted cannot be delivered")
     else:
         q.nontrivial += n_err
+    return q.result()
+
+
+def c20_purge_loop_step(ctx):
+    q = Q("c20_purge_loop_step", ["every `while i < self.retransmissions.len()` purge loop (exec_command_stop_browse, exec_command_stop_resolve_hostname): one pass from an arbitrary index"],
+          "the inductive step of the index loop: ANY index i (usize), ANY queue contents (element tests are opaque); one pass to the back edge",
+          ["window slice: one loop pass", "the element test (command kind and name comparison) is opaque: both outcomes explored"])
+    sites = 0
+    for name, fn in sorted(ctx.funcs.items()):
+        if "{closure" in name or not any(re.search(r"Vec::<(?:service_daemon::)?ReRun>::remove\(", t) for _, t in fn.blocks.values()):
+            continue
+        if not name.split("::")[-1].startswith("exec_command_stop"):
+            continue   # the run loop's own re-run loop has a different shape and is decided by c19_rerun_due
+        il = fn.debug.get("i")
+        heads = {}
+        for b, (stmts, t) in fn.blocks.items():
+            m = re.match(r"goto -> (bb\d+);", t)
+            if m and int(m.group(1)[2:]) < int(b[2:]):
+                heads[m.group(1)] = heads.get(m.group(1), 0) + 1
+        head = [h for h in heads if il and any(re.search(r"Lt\((?:copy|move) %s\b" % il, x) or re.search(r"= copy %s;" % il, x) for x in fn.blocks[h][0])]
+        tag = name.split("::")[-1]
+        if not il or not re.fullmatch(r"_\d+", il) or len(head) != 1:
+            q.unknown.append(f"{tag}: index loop not recognised (index local {il}, loop heads {sorted(heads)})")
+            continue
+        sites += 1
+        i0 = z3.BitVec("i", 64)
+        ex = Explorer(ctx.funcs, ctx.consts, max_visits=1, max_paths=300)
+        paths = ex.explore(fn.name, start_block=head[0], locals_={il: BV(i0, 64)})
+        n_rm = n_keep = 0
+        for k, p in enumerate(paths):
+            if not p.outcome.startswith("cut:loop"):
+                continue
+            fin = getattr(p, "final_locals", {}).get(il)
+            if not isinstance(fin, BV):
+                q.unknown.append(f"{tag}: path {k}: index at the back edge not available")
+                continue
+            rm = [e for e in p.events if e[0] == "call" and re.search(r"Vec::<(?:service_daemon::)?ReRun>::remove$", e[1])]
+            pre = p.cond + [z3.ULT(i0, TWO62)]
+            if rm:
+                n_rm += 1
+                arg = rm[0][2][1]
+                if isinstance(arg, BV):
+                    q.valid(pre, arg.e == i0, f"{tag}: path {k}: the element removed is the one just examined", arg.taint)
+                q.valid(pre, fin.e == i0, f"{tag}: path {k}: after a removal the same index is examined again (the next element moved into it)", fin.taint)
+            else:
+                n_keep += 1
+                q.valid(pre, fin.e == i0 + 1, f"{tag}: path {k}: an element that stays is stepped over exactly once", fin.taint)
+            q.witness(pre, f"{tag}: path {k}")
+        if n_rm == 0 or n_keep == 0:
+            q.unknown.append(f"{tag}: expected removing and keeping passes (found {n_rm}/{n_keep})")
+    if sites < 2:
+        q.unknown.append(f"expected the purge loops of stop_browse and stop_resolve_hostname (found {sites})")
     return q.result()
 
 
@@ -1626,6 +1889,16 @@ def c16_decode_txt_step(ctx):
     return q.result()
 
 
+def _direct_callers(ctx, callee_pat, exclude=()):
+    out = []
+    for name, fn in ctx.funcs.items():
+        if any(name.endswith(x) for x in exclude) or "::tests::" in name or "verif_" in name:
+            continue
+        if any(re.search(callee_pat, t) for _, t in fn.blocks.values()):
+            out.append(name)
+    return sorted(out)
+
+
 def c16_first_key_wins(ctx):
     q = Q("c16_first_key_wins", ["service_info::decode_txt_unique", "decode_txt_unique::{closure#0}"],
           "call structure of decode_txt_unique and its retain closure", ["calls are opaque; provenance only"])
@@ -1644,6 +1917,13 @@ def c16_first_key_wins(ctx):
             q.fail.append(("decode_txt_unique does not decode", f"path {i}"))
         if not any("retain" in c.split("::")[-1] for c in calls):
             q.fail.append(("duplicate keys are not filtered over the WHOLE list (only the first occurrence of a key may be kept, wherever the repeats are)", f"path {i}: calls {[c.split('::')[-1] for c in calls]}"))
+    # received TXT data reaches the API only through the de-duplicating decoder
+    direct = [n for n in _direct_callers(ctx, r"= (?:\w+::)*decode_txt\(", exclude=("decode_txt_unique", "::rdata_print", "::fmt"))]   # printing is not API data
+    if direct:
+        q.fail.append(("TXT bytes are decoded without dropping repeated keys on a path that feeds the public API (every occurrence of a key is reported, the last one wins in a map)",
+                       "decode_txt called directly by: " + ", ".join(d.split("::")[-2] + "::" + d.split("::")[-1] for d in direct)))
+    if not _direct_callers(ctx, r"= (?:\w+::)*decode_txt_unique\("):
+        q.unknown.append("no caller of decode_txt_unique found")
     if len(clos) != 1:
         q.fail.append(("no per-property filter closure", "decode_txt_unique::{closure#0} missing"))
         return q.result()
@@ -2054,10 +2334,10 @@ def c07_reannounce_delay(ctx):
 
 
 SPECS = {
-    "C11": [c11_new_lifetime, c11_predicates, c11_refresh_schedule, c11_reset_restarts, c11_cache_flush_rule],
+    "C11": [c11_new_lifetime, c11_predicates, c11_refresh_schedule, c11_reset_restarts, c11_cache_flush_rule, c11_addr_lookup_lowercase, c11_hostname_refresh_guard],
     "C10": [c10_update_ttl, c10_known_answer_filter, c10_suppressed_ptr_no_additionals],
-    "C05": [c05_reset_restores, c05_verify_deadline, c05_verify_shortens_only, c05_evict_predicate, c05_removed_addr_key],
-    "C18": [c18_affected_host_lowercase],
+    "C05": [c05_reset_restores, c05_verify_deadline, c05_verify_shortens_only, c05_evict_predicate, c05_removed_addr_key, c11_cache_flush_rule],
+    "C18": [c18_affected_host_lowercase, c11_cache_flush_rule],
     "C07": [c07_probe_clock, c07_reannounce_delay, c07_check_probing_paths, c07_resend_lookup_key],
     "C12": [c12_poll_timeout, c12_ipcheck_rearm, c12_hostname_timeout_timer, c12_hostname_timeout_due, c12_response_record_timers, c12_rerun_has_timer, c12_probe_timers, c12_conflict_probe_timer, c12_tiebreak_retry_timer, c11_cache_flush_rule, c05_verify_deadline, c07_check_probing_paths],
     "C19": [c19_browse_backoff, c19_hostname_backoff, c19_resolve_retry, c19_initial_delay, c19_rerun_due, c19_browse_listener_gone],
@@ -2065,5 +2345,5 @@ SPECS = {
     "C16": [c16_decode_txt_step, c16_first_key_wins],
     "C01": [c01_name_cap_operand],
     "C15": [c01_name_cap_operand, c16_decode_txt_step],
-    "C20": [c20_not_for_us_paths, c20_txt_evicted_without_srv, c05_evict_predicate],
+    "C20": [c20_not_for_us_paths, c20_txt_evicted_without_srv, c05_evict_predicate, c12_response_record_timers, c20_purge_loop_step],
 }
